@@ -84,6 +84,21 @@ def name_list():
     return _NAME_LIST
 
 
+_DOUBLE_LIST = None
+
+
+def double_list():
+    global _DOUBLE_LIST  # pylint: disable=global-statement
+    if _DOUBLE_LIST is None:
+        out = []
+        for path in corpus.class_paths():
+            for raw in corpus.accepted(path)[:3]:
+                if 2 <= len(raw) <= 160:
+                    out.append((path, raw.hex()))
+        _DOUBLE_LIST = out
+    return _DOUBLE_LIST
+
+
 _PAIR_LIST = None
 
 
@@ -101,6 +116,7 @@ def prepare(tier):  # pylint: disable=unused-argument
     sweep_list()
     field_list()
     pair_list()
+    double_list()
     name_list()
     wrap_table()
     return {'phase': 'explore'}
@@ -124,6 +140,9 @@ def _generate(rng, index, tier, extra):  # pylint: disable=unused-argument
     if extra and extra.get('phase') == 'fields':
         path, hexdata = field_list()[index]
         return {'kind': 'sweep', 'cls': path, 'hex': hexdata, 'fields': True}
+    if extra and extra.get('phase') == 'double':
+        path, hexdata = double_list()[index]
+        return {'kind': 'sweep', 'cls': path, 'hex': hexdata, 'double': tier}
     if extra and extra.get('phase') == 'pairs':
         path, hexdata = pair_list()[index]
         return {'kind': 'sweep', 'cls': path, 'hex': hexdata, 'pairs': True}
@@ -423,6 +442,17 @@ def _exec_sweep(doc, res):
         if len(plan) > 1500:
             step = len(plan) / 1500.0
             plan = [plan[int(k * step)] for k in range(1500)]
+    elif doc.get('double'):
+        # two single faults that must coincide.  (a) small inputs: every pair of offsets overwritten with 00 / 80 / ff;
+        # (b) inputs up to 160 octets: one of the last 16 truncations together with one octet set to 80 / ff
+        plan = []
+        values = (0x00, 0xff) if doc['double'] == 'quick' else (0x00, 0x80, 0xff)
+        if len(raw) <= (64 if doc['double'] == 'quick' else 96):
+            plan += [('two', first, '%d:%d:%d' % (v1, second, v2)) for first in range(len(raw))
+                     for second in range(first + 1, len(raw)) for v1 in values for v2 in values]
+        if len(raw) <= 160:
+            plan += [('cutset', cut, '%d:%d' % (offset, value)) for cut in range(max(1, len(raw) - 16), len(raw))
+                     for offset in range(cut) for value in (0x80, 0xff)]
     elif doc.get('consts'):
         # every byte-string constant the library defines, written over every offset
         plan = [('const', off, const.hex()) for const in wirefault.byte_constants()
@@ -457,6 +487,23 @@ def _exec_sweep(doc, res):
             if data is None or data == raw:
                 continue
             res.stats['fault.pair'] += 1
+            entries = ('parse_immutable', )
+        elif mode == 'two':
+            v1, second, v2 = (int(item) for item in val.split(':'))
+            data = bytearray(raw)
+            data[off], data[second] = v1, v2
+            data = bytes(data)
+            if data == raw:
+                continue
+            res.stats['fault.set'] += 2
+            entries = ('parse_immutable', )
+        elif mode == 'cutset':
+            offset, value = (int(item) for item in val.split(':'))
+            data = bytearray(raw[:off])
+            data[offset] = value
+            data = bytes(data)
+            res.stats['fault.trunc'] += 1
+            res.stats['fault.set'] += 1
             entries = ('parse_immutable', )
         elif mode == 'const':
             const = bytes.fromhex(val)
@@ -667,11 +714,12 @@ def check(tier, seed):
     names = core.run_batch(me, seed, tier, len(name_list()), 400.0, {'phase': 'names'}, chunk=2)
     bigint = core.run_batch(me, seed, tier, len(field_list()), 600.0, {'phase': 'bigint'}, chunk=4)
     pairs = core.run_batch(me, seed, tier, len(pair_list()), 600.0, {'phase': 'pairs'}, chunk=4)
+    double = core.run_batch(me, seed, tier, len(double_list()), 900.0, {'phase': 'double'}, chunk=4)
     consts = core.run_batch(me, seed, tier, len(field_list()) if wirefault.byte_constants() else 0, 600.0,
                             {'phase': 'consts'}, chunk=8)
     n_runs, wall = BUDGET[tier]
     explore = core.run_batch(me, seed, tier, n_runs, wall, extra)
-    batch = core.merge_batches([sweep, fields, names, bigint, pairs, consts, explore, histories])
+    batch = core.merge_batches([sweep, fields, names, bigint, pairs, double, consts, explore, histories])
     coverage = core.coverage_from_batch(
         batch, RULE, fault_kinds=wire.FAULT_KINDS,
         probes=('corrupted_input_accepted', 'second_layer_parse', 'faulted_item_accepted_inside_container'),
